@@ -26,9 +26,10 @@ CONSTANTS MaxCalls,      \* bound on the number of handler calls (configurations
           ZeroStatusFix, \* TRUE: wrappers report 200 when the handler never wrote a header (the
                          \* repaired code); FALSE: they report 0 (the pinned tree: D finds the
                          \* WriteHeader(0) panic / unvalidated implicit 200)
-          InfoFix        \* FALSE: the wrappers take WriteHeader(1xx) for the response's status (the code
-                         \* as it is: open finding F-C14-2); TRUE: the proposed repair (informational
-                         \* responses do not commit: warn forwards them, strict drops them)
+          InfoFix        \* TRUE: the code as it is since fix 14f1d91 (informational responses do not commit:
+                         \* warn forwards them, strict drops them); FALSE: the wrappers before it, which took
+                         \* WriteHeader(1xx) for the response's status (finding F-C14-2, fixed; MC_C14_infofinal.cfg
+                         \* keeps that design as a refuted variant)
 
 FinalStatuses == {200, 201, 500}
 NoBodyStatuses == {204}                             \* final statuses that forbid a body: net/http refuses every Write after them
@@ -467,10 +468,10 @@ Spec == Init /\ [][Next]_vars
 (* what a client of cOut observes.                                           *)
 ModelObs == [invoked |-> invoked, errs |-> errs, eff |-> Effective(cOut, hdr), silent |-> cOut = <<>>]
 
-(* the model of the code as it is: the contract, up to the open findings (FindingsC14) *)
+(* the contract, up to the classes of open findings (FindingsC14; none is open at present) *)
 L2ImpliesL1 == phase = "done" =>
    LET bad == Failed(cfg, script, ModelObs) IN bad = {} \/ Class(cfg, script, bad) # "none"
-(* the model of the repaired code (InfoFix = TRUE): the contract, no exception *)
+(* the contract, no exception: what the main configurations check *)
 L2ImpliesL1Pure == phase = "done" => Contract(cfg, script, ModelObs)
 
 TypeOK ==
